@@ -1237,5 +1237,8 @@ func TestSim(t *testing.T) {
 	if p := os.Getenv("SIM_PROP"); p != "" {
 		H.Property = p
 	}
+	if n, _ := strconv.Atoi(os.Getenv("VERIF_START_STALL")); n > 0 {
+		H.StartStallDen = n // exploratory knob, off in the registered checks (DESIGN 12.10)
+	}
 	hk.Main(t, H)
 }
